@@ -1,4 +1,6 @@
 """C03 - outputs are attributed to the right signal and verdicts follow the X/Z rules."""
+import re
+
 import z3
 
 from ..oblig import obligation
@@ -300,3 +302,37 @@ def this_calls_values(O):
 def kani_verdict_kernels(O):
     from . import kani_obs
     kani_obs.verdict_kernels(O, "C03")
+
+
+@obligation("C03/signal-identity", desc="<Signal as PartialEq>::eq - what attribution compares signals with - holds only for signals of "
+            "the same name (string identity), width and kind: two signals whose names differ (in case, say) are never the same")
+def signal_identity(O):
+    from ..itermodels import str_id, _str_node
+    m = O.mir
+    R = rep()
+    cands = [f for n, f in m.funcs.items() if n.endswith("::eq") and "src/lib.rs" in n and f.params and "&Signal" in f.params[0][1].replace("'_ ", "")]
+    cands = [f for f in cands if len(f.params) == 2 and "Signal" in f.params[1][1] and "SignalType" not in f.params[0][1]]
+    if len(cands) != 1:
+        raise LookupError("cannot identify <Signal as PartialEq>::eq (%d candidates)" % len(cands))
+    fn = cands[0]
+    eng = O.engine()
+    paths = O.explore(eng, fn)
+    a, b = eng.deref(initial(fn, 1)), eng.deref(initial(fn, 2))
+    na = str_id(eng, _str_node(eng, eng.field(a, m.fidx("Signal", "name"))))
+    nb = str_id(eng, _str_node(eng, eng.field(b, m.fidx("Signal", "name"))))
+    ba = eng.scalar(eng.field(a, m.fidx("Signal", "bits"), "usize"))
+    bb = eng.scalar(eng.field(b, m.fidx("Signal", "bits"), "usize"))
+    O.witness([p for p in paths if p.outcome == "return"], "Signal::eq returns")
+    for p in paths:
+        eng.focus(p)
+        if p.outcome == "panic":
+            R.fail(O, p, "Signal::eq panics: %s" % p.detail)
+            continue
+        if p.outcome != "return":
+            continue
+        other = [e.norm for e in p.trace if e.kind == "call" and not re.search(r"PartialEq|::eq$|::ne$", e.norm)]
+        if other:
+            R.fail(O, p, "Signal::eq compares through %s" % other[0].split("::")[-1])
+            continue
+        R.prove(O, p, z3.Implies(eng.scalar(p.ret, "bool"), z3.And(na == nb, ba == bb)),
+                "signals that compare equal have the same name and width")
